@@ -9,6 +9,7 @@ code or any signal, a failing as/ld may or may not leave junk in its output), al
 -/
 import ChibiVerif.Model.DriverProc
 import ChibiVerif.Lemmas.DriverProcLemmas
+import ChibiVerif.Lemmas.DriverProcConcurrent
 
 namespace ChibiVerif.Props.C14
 open ChibiVerif.DriverProc
@@ -100,5 +101,89 @@ theorem C14_no_temps (env : Env P) (cmd : Cmd P) (fs : FS P) :
 example : created (runCmd exEnv exCmd exFs).1.log = [100, 101] := by decide
 example : (runCmd exEnv exCmd exFs).2 = [(22, ⟨.junk, []⟩), (12, ⟨.obj, [1]⟩), (1, ⟨.orig, [1]⟩), (2, ⟨.orig, [2]⟩), (3, ⟨.orig, [3]⟩)] := by
   decide
+
+/-- **C14 (concurrent invocations do not interfere).**  Two drivers run on ONE file system, their steps
+    (each `mkstemp`, spawn, `wait`, `unlink`, exit) interleaved in ANY order `il`.  If neither writes
+    (requested outputs, temporaries handed out by mkstemp) a path the other one reads or writes, then
+    whenever both have terminated each one's final state — exit status, complete event log — is the one of
+    its solo run from the initial file system, the file system agrees with the solo result on everything
+    that driver touches, and nothing else has changed. -/
+theorem C14_concurrent (envA envB : Env P) (cmdA cmdB : Cmd P) (fs : FS P) (il : List Bool)
+    (hAB : ∀ p, Writes envA cmdA p → ¬ Touches envB cmdB p)
+    (hBA : ∀ p, Writes envB cmdB p → ¬ Touches envA cmdA p)
+    (hta : (irun envA envB il (init cmdA, init cmdB, fs)).1.phase.terminal = true)
+    (htb : (irun envA envB il (init cmdA, init cmdB, fs)).2.1.phase.terminal = true) :
+    (irun envA envB il (init cmdA, init cmdB, fs)).1 = (runCmd envA cmdA fs).1 ∧
+    (irun envA envB il (init cmdA, init cmdB, fs)).2.1 = (runCmd envB cmdB fs).1 ∧
+    (∀ p, Touches envA cmdA p →
+      (irun envA envB il (init cmdA, init cmdB, fs)).2.2.get p = (runCmd envA cmdA fs).2.get p) ∧
+    (∀ p, Touches envB cmdB p →
+      (irun envA envB il (init cmdA, init cmdB, fs)).2.2.get p = (runCmd envB cmdB fs).2.get p) ∧
+    (∀ p, ¬ Writes envA cmdA p → ¬ Writes envB cmdB p →
+      (irun envA envB il (init cmdA, init cmdB, fs)).2.2.get p = fs.get p) := by
+  have hrel := irun_rel envA envB (Writes envA cmdA) (Touches envA cmdA) (Writes envB cmdB) (Touches envB cmdB)
+    hAB hBA il (init cmdA, init cmdB, fs) (init cmdA, fs) (init cmdB, fs)
+    ⟨rfl, rfl, fun _ _ => rfl, fun _ _ => rfl, init_inside envA cmdA, init_inside envB cmdB⟩
+  obtain ⟨h1, h2, h3, h4, _, _⟩ := hrel
+  have ea : iter envA (countB true il) (init cmdA, fs) = runCmd envA cmdA fs :=
+    C14_deterministic envA cmdA fs _ ⟨_, rfl, by rw [← h1]; exact hta⟩
+  have eb : iter envB (countB false il) (init cmdB, fs) = runCmd envB cmdB fs :=
+    C14_deterministic envB cmdB fs _ ⟨_, rfl, by rw [← h2]; exact htb⟩
+  rw [ea] at h1 h3
+  rw [eb] at h2 h4
+  exact ⟨h1, h2, h3, h4, fun p ha hb =>
+    irun_frame envA envB (Writes envA cmdA) (Touches envA cmdA) (Writes envB cmdB) (Touches envB cmdB) il
+      (init cmdA, init cmdB, fs) (init_inside envA cmdA) (init_inside envB cmdB) p ha hb⟩
+
+/-- **C14 (concurrent runs terminate).**  Under the same disjointness, any interleaving that gives each
+    driver at least `fuel` steps ends with both terminated (so `C14_concurrent` applies to every fair
+    schedule). -/
+theorem C14_concurrent_terminates (envA envB : Env P) (cmdA cmdB : Cmd P) (fs : FS P) (il : List Bool)
+    (hAB : ∀ p, Writes envA cmdA p → ¬ Touches envB cmdB p)
+    (hBA : ∀ p, Writes envB cmdB p → ¬ Touches envA cmdA p)
+    (hna : fuel (init cmdA) ≤ countB true il) (hnb : fuel (init cmdB) ≤ countB false il) :
+    (irun envA envB il (init cmdA, init cmdB, fs)).1.phase.terminal = true ∧
+    (irun envA envB il (init cmdA, init cmdB, fs)).2.1.phase.terminal = true := by
+  have hrel := irun_rel envA envB (Writes envA cmdA) (Touches envA cmdA) (Writes envB cmdB) (Touches envB cmdB)
+    hAB hBA il (init cmdA, init cmdB, fs) (init cmdA, fs) (init cmdB, fs)
+    ⟨rfl, rfl, fun _ _ => rfl, fun _ _ => rfl, init_inside envA cmdA, init_inside envB cmdB⟩
+  obtain ⟨h1, h2, _, _, _, _⟩ := hrel
+  obtain ⟨ca, hca⟩ := C14_terminates envA cmdA fs
+  obtain ⟨cb, hcb⟩ := C14_terminates envB cmdB fs
+  have ea : iter envA (countB true il) (init cmdA, fs) = runCmd envA cmdA fs :=
+    iter_mono envA _ hna (by show (runCmd envA cmdA fs).1.phase.terminal = true; rw [hca]; rfl)
+  have eb : iter envB (countB false il) (init cmdB, fs) = runCmd envB cmdB fs :=
+    iter_mono envB _ hnb (by show (runCmd envB cmdB fs).1.phase.terminal = true; rw [hcb]; rfl)
+  rw [h1, h2, ea, eb, hca, hcb]
+  exact ⟨rfl, rfl⟩
+
+/-- non-vacuity: `-c a.c` (temporaries 100…) next to `b.c` linked to 50 with a failing linker
+    (temporaries 200…), steps interleaved `A B B A B A A B …`; the disjointness hypotheses hold, both
+    terminate, and the joint run is what the theorem says -/
+private def cA : Cmd Nat := { mode := .c, out := none, aout := 99, inputs := [⟨1, .C, 11, 12⟩] }
+private def cB : Cmd Nat := { mode := .link, out := some 50, aout := 99, inputs := [⟨2, .C, 21, 22⟩] }
+private def eA : Env Nat := { mode := .c, sched := fun _ _ => .ok, fresh := fun k => if k < 4 then some (100 + k) else none }
+private def eB : Env Nat :=
+  { mode := .link, sched := fun p _ => if p = .ld then ⟨.exit 1, true⟩ else .ok,
+    fresh := fun k => if k < 4 then some (200 + k) else none }
+private def ilEx : List Bool := [true, false, false, true, false, true, true, false] ++ List.replicate 12 true ++ List.replicate 20 false
+
+example : (irun eA eB ilEx (init cA, init cB, exFs)).1.phase = .done 0 ∧
+    (irun eA eB ilEx (init cA, init cB, exFs)).2.1.phase = .done 1 ∧
+    (irun eA eB ilEx (init cA, init cB, exFs)).2.2.get 12 = some ⟨.obj, [1]⟩ ∧
+    (irun eA eB ilEx (init cA, init cB, exFs)).2.2.get 50 = some ⟨.junk, []⟩ := by decide
+
+example : ∀ p, Writes eA cA p → ¬ Touches eB cB p := by
+  intro p hw ht
+  have hpa : p = 12 ∨ (100 ≤ p ∧ p < 104) := by
+    rcases hw with h | ⟨k, h⟩
+    · left; simpa [requested, cA, isUnit, effKind, unitOutput] using h
+    · right; simp only [eA] at h; split at h <;> simp at h; omega
+  have hpb : p = 50 ∨ (200 ≤ p ∧ p < 204) ∨ p = 2 := by
+    rcases ht with (h | ⟨k, h⟩) | h
+    · left; simpa [requested, cB] using h
+    · right; left; simp only [eB] at h; split at h <;> simp at h; omega
+    · right; right; simpa [cB] using h
+  omega
 
 end ChibiVerif.Props.C14
